@@ -389,20 +389,26 @@ def _kkey(k: Any):
     return (type(k).__name__, k if isinstance(k, (int, float, str)) else str(k))
 
 
-def reorder(o: Any, mode: str) -> Any:
-    """A copy of ``o`` whose MAPPINGS have their keys in sorted / reversed-sorted / reversed-original order."""
-    if isinstance(o, dict):
-        ks = list(o.keys())
-        if mode == "sorted":
-            ks = sorted(ks, key=_kkey)
-        elif mode == "rsorted":
-            ks = sorted(ks, key=_kkey, reverse=True)
-        elif mode == "reversed":
-            ks = ks[::-1]
-        return {k: reorder(o[k], mode) for k in ks}
-    if isinstance(o, list):
-        return [reorder(x, mode) for x in o]
-    return copy.deepcopy(o)
+def reorder(o: Any, mode: str, keep: Tuple[str, ...] = ()) -> Any:
+    """A copy of ``o`` whose MAPPINGS have their keys in sorted / reversed-sorted / reversed-original order; a mapping
+    that is the value of a key listed in ``keep`` retains its own key order (its sub-mappings are still reordered)."""
+
+    def go(x: Any, fixed: bool) -> Any:
+        if isinstance(x, dict):
+            ks = list(x.keys())
+            if not fixed:
+                if mode == "sorted":
+                    ks = sorted(ks, key=_kkey)
+                elif mode == "rsorted":
+                    ks = sorted(ks, key=_kkey, reverse=True)
+                elif mode == "reversed":
+                    ks = ks[::-1]
+            return {k: go(x[k], k in keep) for k in ks}
+        if isinstance(x, list):
+            return [go(y, False) for y in x]
+        return copy.deepcopy(x)
+
+    return go(o, False)
 
 
 VARIANTS = {
@@ -413,10 +419,10 @@ VARIANTS = {
 }
 
 
-def variant(cfg: Dict[str, Any], name: str) -> Tuple[Dict[str, Any], str]:
+def variant(cfg: Dict[str, Any], name: str, keep: Tuple[str, ...] = ()) -> Tuple[Dict[str, Any], str]:
     """(scenario dict loaded back from the re-serialised text, the text)."""
     mode, opts = VARIANTS[name]
-    text = yaml.safe_dump(reorder(cfg, mode), sort_keys=False, **opts)
+    text = yaml.safe_dump(reorder(cfg, mode, keep), sort_keys=False, **opts)
     back = yaml.safe_load(text)
     if back != cfg:  # dict equality ignores key order: the variant differs ONLY in formatting / key order
         raise RuntimeError(f"re-serialisation {name} changed the scenario's content (harness bug)")
@@ -475,7 +481,7 @@ def _control_ambient_entropy(seed: int):
     _AMBIENT["base"], _AMBIENT["n"] = seed, 0
 
 
-def run_trajectory(cfg: Dict[str, Any], steps: int, seed: int) -> Dict[str, Any]:
+def run_trajectory(cfg: Dict[str, Any], steps: int, seed: int, snap_at: Optional[int] = None) -> Dict[str, Any]:
     """Build, then ``steps`` seeded steps; proxy agents get seeded random action indices (by ref)."""
     import numpy as np
     from primaite.game.game import PrimaiteGame
@@ -492,6 +498,9 @@ def run_trajectory(cfg: Dict[str, Any], steps: int, seed: int) -> Dict[str, Any]
     d = sim_digests(game.simulation)
     out["loose"].append(d[0])
     out["strict"].append(d[1])
+    if snap_at == 0:
+        out["snapshot"] = _sort_dicts(project.snapshot(game.simulation))
+        return out
     arng = random.Random(seed + 17)
     refs = sorted(game.rl_agents)
     sizes = {r: max(1, len(game.rl_agents[r].action_manager.action_map)) for r in refs}
@@ -510,6 +519,9 @@ def run_trajectory(cfg: Dict[str, Any], steps: int, seed: int) -> Dict[str, Any]
         d = sim_digests(game.simulation)
         out["loose"].append(d[0])
         out["strict"].append(d[1])
+        if snap_at is not None and len(out["loose"]) - 1 == snap_at:
+            out["snapshot"] = _sort_dicts(project.snapshot(game.simulation))
+            return out
         hist = []
         for ref in sorted(game.agents):
             ag = game.agents[ref]
@@ -519,3 +531,12 @@ def run_trajectory(cfg: Dict[str, Any], steps: int, seed: int) -> Dict[str, Any]
                              _milli(ag.reward_function.current_reward)])
         out["agents"].append(_num(json.dumps(hist, sort_keys=True, default=str)))
     return out
+
+
+def explain(cfg_a: Dict[str, Any], cfg_b: Dict[str, Any], steps: int, seed: int, index: int) -> List[Any]:
+    """First differences between the two simulations at digest position ``index`` (0 = at the return of from_config)."""
+    a = run_trajectory(cfg_a, steps, seed, snap_at=index)
+    b = run_trajectory(cfg_b, steps, seed, snap_at=index)
+    if "snapshot" not in a or "snapshot" not in b:
+        return []
+    return [list(x) for x in project.diff(a["snapshot"], b["snapshot"], limit=6)]
